@@ -4,6 +4,7 @@
   its `Text` span, every comment its `Comment` span, every PI its `PiTarget` span and, when it
   has content, its `PiContent` span — at every depth.
 -/
+import XotModel.Lemmas.ParseQName
 import XotModel.Lemmas.ParseNoPanic
 
 namespace XotModel
@@ -316,6 +317,7 @@ theorem builderCov_congr {b b' : Builder} (h : BuilderCov b) (hc : b'.cur = b.cu
 
 theorem step_cov {b b' : Builder} (t : Token) (hok : BuilderOk b) (h : BuilderCov b) (hr : b.step t = .ok b') :
     BuilderCov b' := by
+  replace hr := Builder.step_ok_core hr
   have helem : b.parents ≠ [] → b.cur.value.isElement = true := by
     intro hne
     have hs := hok.2.2.1
@@ -324,7 +326,7 @@ theorem step_cov {b b' : Builder} (t : Token) (hok : BuilderOk b) (h : BuilderCo
     | cons g gs => rw [hp] at hs; simp only [ShapeOk] at hs; exact hs.1
   cases t with
   | «attribute» pfx loc value sp =>
-    simp only [Builder.step] at hr
+    simp only [Builder.stepCore] at hr
     have hprefix : ∀ p u s, b.prefix p u s = .ok b' → BuilderCov b' := by
       intro p u s hr
       unfold Builder.prefix at hr
@@ -351,24 +353,24 @@ theorem step_cov {b b' : Builder} (t : Token) (hok : BuilderOk b) (h : BuilderCo
             · cases hr
             · simp only [Step.ok.injEq] at hr; subst hr; exact builderCov_congr h rfl rfl rfl
   | text t =>
-    simp only [Builder.step, Builder.text] at hr
+    simp only [Builder.stepCore, Builder.text] at hr
     split at hr
     · cases hr
     · simp only [Step.ok.injEq] at hr; subst hr; exact addText_cov h _ _
   | cdata t sp =>
-    simp only [Builder.step, Builder.cdata] at hr
+    simp only [Builder.stepCore, Builder.cdata] at hr
     split at hr
     · simp only [Step.ok.injEq] at hr; subst hr; exact h
     · simp only [Step.ok.injEq] at hr; subst hr; exact addText_cov h _ _
   | elementStart pfx loc sp =>
-    simp only [Builder.step, Builder.element, Step.ok.injEq] at hr
+    simp only [Builder.stepCore, Builder.element, Step.ok.injEq] at hr
     subst hr
     exact builderCov_congr h rfl rfl rfl
   | elementEnd e sp =>
     cases e with
     | «open» => exact openElement_cov h hr
     | close pfx loc =>
-      simp only [Builder.step] at hr
+      simp only [Builder.stepCore] at hr
       unfold Builder.closeElement at hr
       split at hr
       · cases hr
@@ -386,7 +388,7 @@ theorem step_cov {b b' : Builder} (t : Token) (hok : BuilderOk b) (h : BuilderCo
           · exact leave_cov (b := { b with env := env1 })
               (builderCov_congr h rfl rfl rfl) (helem hne) sp hr
     | empty =>
-      simp only [Builder.step] at hr
+      simp only [Builder.stepCore] at hr
       cases hb : b.openElement with
       | ok b1 =>
         rw [hb] at hr
@@ -411,11 +413,11 @@ theorem step_cov {b b' : Builder} (t : Token) (hok : BuilderOk b) (h : BuilderCo
       | err e env => rw [hb] at hr; cases hr
       | panic => rw [hb] at hr; cases hr
   | comment t sp =>
-    simp only [Builder.step, Builder.comment, Step.ok.injEq] at hr
+    simp only [Builder.stepCore, Builder.comment, Step.ok.injEq] at hr
     subst hr
     exact addLeaf_cov h (.comment (normalizeLineEnds t.text)) _ rfl (keysSub_add _ _ _) (hasKey_add_self _ _ _)
   | pi target content sp =>
-    simp only [Builder.step] at hr
+    simp only [Builder.stepCore] at hr
     split at hr
     · cases hr
     simp only [Builder.processingInstruction, Step.ok.injEq] at hr
@@ -429,14 +431,14 @@ theorem step_cov {b b' : Builder} (t : Token) (hok : BuilderOk b) (h : BuilderCo
       | none => exact ⟨hasKey_add_self _ _ _, fun hd => by simp at hd⟩
       | some c => exact ⟨keysSub_add _ _ _ _ (hasKey_add_self _ _ _), fun _ => hasKey_add_self _ _ _⟩
   | declaration v e s sp =>
-    simp only [Builder.step] at hr
+    simp only [Builder.stepCore] at hr
     split at hr
     · cases hr
     · simp only [Step.ok.injEq] at hr; subst hr; exact h
-  | dtdStart sp => simp [Builder.step] at hr
-  | dtdEnd sp => simp [Builder.step] at hr
-  | emptyDtd sp => simp [Builder.step] at hr
-  | entityDecl sp => simp [Builder.step] at hr
+  | dtdStart sp => simp [Builder.stepCore] at hr
+  | dtdEnd sp => simp [Builder.stepCore] at hr
+  | emptyDtd sp => simp [Builder.stepCore] at hr
+  | entityDecl sp => simp [Builder.stepCore] at hr
 
 theorem run_cov (ts : List Token) (lexErr : Option Nat) :
     ∀ {b b' : Builder}, BuilderOk b → BuilderCov b → b.run ts lexErr = .ok b' → BuilderCov b' := by
